@@ -15,7 +15,7 @@ pub const SPEC: PropSpec = PropSpec {
     level: "exploration",
     rule: "Cases = (value of one of 9 struct shapes with list fields (one with three lists whose middle items contain a child of the item's own name; one whose container also has text content, which is one more sibling of one event): two lists; three lists; lists + scalar + optional field; list items that are structs containing a child named like an outer list; list items that are structs with two lists of their own; a $value enum list next to a named list; nested struct with its own lists, order-preserving interleaving of the child elements of its contiguous serialization, event buffer limit). Exhaustive: for generated values with at most 3+3+2 list items ALL order-preserving interleavings (multinomial, sampled down to 600 when more than 2000) x every limit 1..=total child events+2 and no limit; random interleavings for sizes up to 10+10+10; two-level random interleavings (the children of nested struct items are interleaved as well). Oracle: without a limit the result must be Ok(original value) (string and reader entry points); with a limit L the result must be Ok(original value) or Err(TooManyEvents); if B > L the result must not be Ok, where B = number of deserializer events (Start, End, Text; an empty element counts 2) of the siblings that do not belong to the first list met in document order and stand behind that list's first item; success at L implies success at every L' > L. Non-trivial = the interleaving is not the contiguous one (B > 0).",
     assumptions: &["B is a lower bound of what has to be buffered (documentation of the overlapped-lists feature: all events up to the end of the container are inspected); list items that are structs with own lists may need more, which the monitor does not demand", "the serializer output never contains comments/CDATA, so one text token is one deserializer event"],
-    required: &["interleavings", "shapes_seen_all9", "outcome.ok", "outcome.too_many_events", "monotonicity_pairs", "tight.zero_slack", "max.B", "reader_entry", "two_level_values"],
+    required: &["interleavings", "shapes_seen_all9", "decorated.documents_judged", "decorated.documents_with_xsi_nil", "decorated.documents_with_xsi_nil_declared_on_an_ancestor", "decorated.documents_with_prefixed_names", "outcome.ok", "outcome.too_many_events", "monotonicity_pairs", "tight.zero_slack", "max.B", "reader_entry", "two_level_values"],
     run,
     replay,
     thorough_layers: &[],
@@ -39,6 +39,14 @@ struct Local {
     max_b: u64,
     reader: u64,
     deep: u64,
+    decor_docs: u64,
+    decor_differs: u64,
+    decor_fails: u64,
+    decor_interleavings: u64,
+    decor_nil_docs: u64,
+    decor_nil_docs_ancestor: u64,
+    decor_prefixed_docs: u64,
+    decor_kinds: BTreeMap<&'static str, u64>,
 }
 
 #[derive(Clone, Debug)]
@@ -48,7 +56,19 @@ pub struct Child {
     pub events: u64,
 }
 
-/// splits `<root ...>children</root>` into the root tags and the child sub-trees
+fn local(n: &[u8]) -> String {
+    let s = String::from_utf8_lossy(n).into_owned();
+    match s.rfind(':') {
+        Some(i) => s[i + 1..].to_string(),
+        None => s,
+    }
+}
+
+/// splits `<root ...>children</root>` into the root tags and the child sub-trees. Names are taken
+/// without their namespace prefix (the deserializer maps elements to fields by local name).
+/// Comments and processing instructions between two children travel with the child that follows
+/// them (they are no deserializer events); inside a child a run of text and CDATA pieces, also
+/// when comments stand between the pieces, is one event.
 pub fn split_children(xml: &str, list_groups: &dyn Fn(&str) -> (usize, bool)) -> Option<(String, Vec<(Child, bool)>, String)> {
     let toks = tokenize(xml.as_bytes(), CFG_NEUTRAL);
     if toks.len() < 2 {
@@ -66,23 +86,27 @@ pub fn split_children(xml: &str, list_groups: &dyn Fn(&str) -> (usize, bool)) ->
     let mut cur_events = 0u64;
     let mut cur_name = String::new();
     let mut close = String::new();
+    // start of comments / PIs that stand in front of the next child
+    let mut lead: Option<usize> = None;
+    let mut prev_text = false;
     for t in &toks[1..] {
         match &t.obs {
             Obs::Ev(Kind::Start, _, n) => {
                 if depth == 0 {
-                    cur_start = Some(t.before as usize);
+                    cur_start = Some(lead.take().unwrap_or(t.before as usize));
                     cur_events = 0;
-                    cur_name = String::from_utf8_lossy(n).into_owned();
+                    cur_name = local(n);
                 }
                 depth += 1;
                 cur_events += 1;
+                prev_text = false;
             }
             Obs::Ev(Kind::Empty, _, n) => {
                 if depth == 0 {
-                    let (g, is_list) = list_groups(&String::from_utf8_lossy(n));
+                    let (g, is_list) = list_groups(&local(n));
                     children.push((
                         Child {
-                            bytes: xml[t.before as usize..t.after as usize].to_string(),
+                            bytes: xml[lead.take().unwrap_or(t.before as usize)..t.after as usize].to_string(),
                             group: g,
                             events: 2,
                         },
@@ -91,10 +115,12 @@ pub fn split_children(xml: &str, list_groups: &dyn Fn(&str) -> (usize, bool)) ->
                 } else {
                     cur_events += 2;
                 }
+                prev_text = false;
             }
             Obs::Ev(Kind::End, _, _) => {
+                prev_text = false;
                 if depth == 0 {
-                    close = xml[t.before as usize..t.after as usize].to_string();
+                    close = xml[lead.take().unwrap_or(t.before as usize)..t.after as usize].to_string();
                     break;
                 }
                 depth -= 1;
@@ -112,15 +138,23 @@ pub fn split_children(xml: &str, list_groups: &dyn Fn(&str) -> (usize, bool)) ->
                     cur_start = None;
                 }
             }
-            Obs::Ev(Kind::Text, raw, _) => {
-                if depth == 0 && !raw.iter().all(|b| is_ws(*b)) {
+            Obs::Ev(k @ (Kind::Text | Kind::CData), raw, _) => {
+                let blank = *k == Kind::Text && raw.iter().all(|b| is_ws(*b));
+                if depth == 0 && !blank {
                     // text content of the container itself: one more sibling, one event
-                    children.push((Child { bytes: xml[t.before as usize..t.after as usize].to_string(), group: 11, events: 1 }, false));
-                } else if depth > 0 && !raw.iter().all(|b| is_ws(*b)) {
-                    cur_events += 1;
-                } else if depth > 0 && !raw.is_empty() {
-                    // whitespace-only text inside a leaf element is a text event unless it is trimmed away:
-                    // the deserializer trims it to nothing, so it does not count
+                    children.push((Child { bytes: xml[lead.take().unwrap_or(t.before as usize)..t.after as usize].to_string(), group: 11, events: 1 }, false));
+                } else if depth > 0 && !blank {
+                    if !prev_text {
+                        cur_events += 1;
+                    }
+                    prev_text = true;
+                }
+                // whitespace-only text inside a leaf element is trimmed to nothing by the
+                // deserializer, so it does not count
+            }
+            Obs::Ev(Kind::Comment | Kind::PI, _, _) => {
+                if depth == 0 && lead.is_none() {
+                    lead = Some(t.before as usize);
                 }
             }
             Obs::Ev(Kind::Eof, _, _) => break,
@@ -130,11 +164,183 @@ pub fn split_children(xml: &str, list_groups: &dyn Fn(&str) -> (usize, bool)) ->
     Some((open, children, close))
 }
 
+
+// ---- hand-written presentation of the same document -------------------------------------------
+// The serializer writes neither namespace prefixes, nor `xsi:nil`, comments, CDATA or elements the
+// type does not know. A document written by hand may have all of them, and the statement speaks
+// about "any interleaving of its child elements", so the contiguous serialization is also
+// decorated first (seeded), accepted only if the decorated contiguous document still gives the
+// original value, and then interleaved.
+pub const D_NS: u8 = 1;
+pub const D_NIL: u8 = 2;
+pub const D_UNKNOWN: u8 = 4;
+pub const D_COMMENT: u8 = 8;
+pub const D_CDATA: u8 = 16;
+pub const D_ATTR: u8 = 32;
+
+const UNKNOWN_BLOBS: &[&str] = &[
+    "<zz/>",
+    "<zz>junk</zz>",
+    "<zz><t_a>x</t_a><zz><zz/></zz>tail</zz>",
+    "<zz a=\"1\"><t_b>5</t_b><zz a=\"2\"/></zz>",
+    "<yy><zz>1</zz><yy>2</yy></yy>",
+    "<zz><s_item2><t_a>q</t_a></s_item2></zz>",
+];
+const UNKNOWN_BLOBS_NS: &[&str] = &["<p:zz><q:zz>t</q:zz><zz/><p:zz/></p:zz>", "<q:zz><p:zz><q:zz>u</q:zz></p:zz></q:zz>", "<p:t_zz><t_zz>1</t_zz><q:t_zz/></p:t_zz>"];
+const NIL_STRING: &[&str] = &[
+    "<t_opt xsi:nil=\"true\"/>",
+    "<t_opt xsi:nil=\"true\"></t_opt>",
+    "<t_opt xsi:nil=\"true\">ignored</t_opt>",
+    "<t_opt xsi:nil=\"true\"><t_a>x</t_a><t_opt>y</t_opt>z</t_opt>",
+    "<t_opt a=\"1\" xsi:nil=\"true\"><t_b>7</t_b></t_opt>",
+];
+const NIL_STRUCT: &[&str] = &[
+    "<s_item2 xsi:nil=\"true\"/>",
+    "<s_item2 xsi:nil=\"true\"><t_a>x</t_a><t_b>1</t_b></s_item2>",
+    "<s_item2 xsi:nil=\"true\"><s_item2><t_a>y</t_a></s_item2><t_b>2</t_b>w</s_item2>",
+];
+
+/// optional fields per shape: (element name, nil blobs)
+fn optional_fields(shape: &str) -> &'static [(&'static str, &'static [&'static str])] {
+    match shape {
+        "OvlScalar" => &[("t_opt", NIL_STRING)],
+        "OvlOpt" => &[("t_opt", NIL_STRING), ("s_item2", NIL_STRUCT)],
+        _ => &[],
+    }
+}
+
+pub fn decorate(xml: &str, shape: &str, flags: u8, decl_on_root: bool, r: &mut Rng) -> Option<String> {
+    let toks = tokenize(xml.as_bytes(), CFG_NEUTRAL);
+    if toks.is_empty() || !matches!(toks[0].obs, Obs::Ev(Kind::Start, _, _)) {
+        return None;
+    }
+    // top-level children present (for the nil decoration) and number of insertion points
+    let mut present: Vec<String> = Vec::new();
+    let mut points = 1usize;
+    {
+        let mut depth = 0;
+        for t in &toks {
+            match &t.obs {
+                Obs::Ev(Kind::Start, _, n) => {
+                    if depth == 1 {
+                        present.push(local(n));
+                        points += 1;
+                    }
+                    depth += 1;
+                }
+                Obs::Ev(Kind::Empty, _, n) => {
+                    if depth == 1 {
+                        present.push(local(n));
+                        points += 1;
+                    }
+                }
+                Obs::Ev(Kind::End, _, _) => depth -= 1,
+                _ => {}
+            }
+        }
+    }
+    // where the nil elements go: (insertion point, blob)
+    let mut nils: Vec<(usize, &'static str)> = Vec::new();
+    if flags & D_NIL != 0 {
+        for (name, blobs) in optional_fields(shape) {
+            if !present.iter().any(|p| p == name) && r.below(4) != 0 {
+                nils.push((r.below(points), blobs[r.below(blobs.len())]));
+            }
+        }
+    }
+    let prefixes: &[&str] = if flags & D_NS != 0 { &["", "", "p:", "q:"] } else { &[""] };
+    // siblings with the same local name form one list only if their qualified names are equal, so the
+    // prefix is a function of (local name, depth); nested elements of the same local name may differ
+    let salt = r.next();
+    let mut out = String::with_capacity(xml.len() * 2);
+    let mut stack: Vec<&str> = Vec::new();
+    let mut point = 0usize;
+    let mut fresh = 0u32;
+    let between = |out: &mut String, point: &mut usize, r: &mut Rng| {
+        for (at, blob) in &nils {
+            if *at == *point {
+                out.push_str(blob);
+            }
+        }
+        if flags & D_COMMENT != 0 && r.below(4) == 0 {
+            out.push_str(["<!--t_a-->", "<?pi t_b?>", "<!-- <t_a>x</t_a> -->", "<!---->"][r.below(4)]);
+        }
+        if flags & D_UNKNOWN != 0 && shape != "OvlValue" && r.below(4) == 0 {
+            if flags & D_NS != 0 && r.bool() {
+                out.push_str(UNKNOWN_BLOBS_NS[r.below(UNKNOWN_BLOBS_NS.len())]);
+            } else {
+                out.push_str(UNKNOWN_BLOBS[r.below(UNKNOWN_BLOBS.len())]);
+            }
+        }
+        *point += 1;
+    };
+    for (ti, t) in toks.iter().enumerate() {
+        let src = &xml[t.before as usize..t.after as usize];
+        match &t.obs {
+            Obs::Ev(k @ (Kind::Start | Kind::Empty), _, n) => {
+                if stack.len() == 1 {
+                    between(&mut out, &mut point, r);
+                }
+                let pre = prefixes[(H::new().bytes(n).u64(stack.len() as u64).u64(salt).finish() % prefixes.len() as u64) as usize];
+                let tail = if *k == Kind::Empty { "/>" } else { ">" };
+                let body = &src[1..src.len() - tail.len()];
+                out.push('<');
+                out.push_str(pre);
+                out.push_str(body);
+                if ti == 0 {
+                    if decl_on_root {
+                        out.push_str(NS_DECLS);
+                    }
+                } else if flags & D_ATTR != 0 && r.below(5) == 0 {
+                    fresh += 1;
+                    out.push_str(&format!(" zz_u{}=\"{}\"", fresh, ["", "1", "t_a", "<", "true"][r.below(5)].replace('<', "&lt;")));
+                }
+                out.push_str(tail);
+                if *k == Kind::Start {
+                    stack.push(pre);
+                }
+            }
+            Obs::Ev(Kind::End, _, _) => {
+                if stack.len() == 1 {
+                    between(&mut out, &mut point, r);
+                }
+                let pre = stack.pop()?;
+                out.push_str("</");
+                out.push_str(pre);
+                out.push_str(&src[2..]);
+            }
+            Obs::Ev(Kind::Text, raw, _) => {
+                let plain = !raw.is_empty() && !raw.contains(&b'&') && !raw.windows(3).any(|w| w == b"]]>") && !raw.iter().all(|b| is_ws(*b));
+                if flags & D_CDATA != 0 && plain && stack.len() >= 1 && r.below(3) == 0 {
+                    // split only inside a leaf element, and never so that whitespace lands on an edge of a piece
+                    let cut = if stack.len() >= 2 && src.len() >= 2 && r.bool() { 1 + r.below(src.len() - 1) } else { 0 };
+                    let ok = src.is_char_boundary(cut) && (cut == 0 || (!is_ws(src.as_bytes()[cut - 1]) && !is_ws(src.as_bytes()[cut])));
+                    let cut = if ok { cut } else { 0 };
+                    out.push_str(&src[..cut]);
+                    if cut > 0 && flags & D_COMMENT != 0 && r.bool() {
+                        out.push_str("<!--c-->");
+                    }
+                    out.push_str("<![CDATA[");
+                    out.push_str(&src[cut..]);
+                    out.push_str("]]>");
+                } else {
+                    out.push_str(src);
+                }
+            }
+            Obs::Ev(Kind::Eof, _, _) => break,
+            Obs::Ev(_, _, _) => out.push_str(src),
+            _ => return None,
+        }
+    }
+    Some(out)
+}
+
 /// (group, is_list) of a child element name, per shape
 fn groups_for(shape: &str) -> Box<dyn Fn(&str) -> (usize, bool)> {
     let shape = shape.to_string();
     Box::new(move |name: &str| match (shape.as_str(), name) {
         ("OvlValue", "t_p") | ("OvlValue", "u_q") => (7, true),
+        ("OvlOpt", "s_item2") => (8, false),
         (_, "t_a") => (0, true),
         (_, "t_b") => (1, true),
         (_, "t_c") => (2, true),
@@ -299,11 +505,64 @@ fn build(open: &str, children: &[(Child, bool)], order: &[usize], close: &str) -
     s
 }
 
-/// judge one interleaving under every limit
-fn check_order(ops: &TypeOps, v: &dyn Val, doc: &str, b: u64, total_events: u64, all_limits: bool, loc: &mut Local, r: &mut Rng) -> Result<(), String> {
+/// F12 (known finding): with overlapped lists a buffered element is examined for `xsi:nil` only when it
+/// is replayed, against the namespace scope the reader has reached by then. When the `xsi` prefix is
+/// declared on the container itself that scope is already closed (the list read ahead to the
+/// container's end tag), so the attribute is not recognised. Signature: the document carries
+/// `xsi:nil="true"` with the declaration on the container, and the outcome is exactly the outcome of
+/// the same document without the `xsi:nil` attributes.
+fn nil_not_honoured(ops: &TypeOps, doc: &str, limit: Option<usize>, got: &DeResult, decl_on_container: bool) -> bool {
+    const ATTR: &str = " xsi:nil=\"true\"";
+    if !decl_on_container {
+        return false;
+    }
+    let at: Vec<usize> = doc.match_indices(ATTR).map(|(i, _)| i).collect();
+    if at.is_empty() || at.len() > 4 {
+        return false;
+    }
+    // some of the nil attributes (the ones on buffered elements) are not honoured, the others are
+    for mask in 1u32..(1 << at.len()) {
+        let mut without = String::with_capacity(doc.len());
+        let mut from = 0;
+        for (k, i) in at.iter().enumerate() {
+            if mask & (1 << k) != 0 {
+                without.push_str(&doc[from..*i]);
+                from = *i + ATTR.len();
+            }
+        }
+        without.push_str(&doc[from..]);
+        let same = match (guarded(|| (ops.de_str)(&without, limit)), got) {
+            (Ok(Ok(a)), Ok(b)) => a.eq_val(b.as_ref()),
+            (Ok(Err(a)), Err(b)) => a.kind == b.kind,
+            _ => false,
+        };
+        if same {
+            return true;
+        }
+    }
+    false
+}
+
+struct Judge<'a> {
+    ops: &'a TypeOps,
+    v: &'a dyn Val,
+    /// the namespace declarations stand on the container whose children are interleaved
+    decl_on_container: bool,
+    known_f12: bool,
+}
+
+/// judge one interleaving under every limit; Ok(number of F12 signature hits)
+fn check_order(j: &Judge, doc: &str, b: u64, total_events: u64, all_limits: bool, loc: &mut Local, r: &mut Rng) -> Result<u64, String> {
+    let (ops, v) = (j.ops, j.v);
+    let mut f12 = 0u64;
     // no limit
-    match (ops.de_str)(doc, None) {
+    let res = (ops.de_str)(doc, None);
+    match &res {
         Ok(x) if x.eq_val(v) => {}
+        _ if j.known_f12 && nil_not_honoured(ops, doc, None, &res, j.decl_on_container) => {
+            // the limits are judged on documents where nil is honoured
+            return Ok(1);
+        }
         Ok(x) => return Err(format!("without a limit the interleaved document gives {} instead of {} (document {:?})", x.dbg(), v.dbg(), doc)),
         Err(e) => return Err(format!("without a limit the interleaved document fails: {}: {} (document {:?})", e.kind, e.msg, doc)),
     }
@@ -322,9 +581,13 @@ fn check_order(ops: &TypeOps, v: &dyn Val, doc: &str, b: u64, total_events: u64,
     let mut first_ok: Option<u64> = None;
     for l in limits {
         let res = (ops.de_str)(doc, Some(l as usize));
-        match res {
+        match &res {
             Ok(x) => {
                 if !x.eq_val(v) {
+                    if j.known_f12 && nil_not_honoured(ops, doc, Some(l as usize), &res, j.decl_on_container) {
+                        f12 += 1;
+                        continue;
+                    }
                     return Err(format!("with limit {} the interleaved document gives {} instead of {} (document {:?})", l, x.dbg(), v.dbg(), doc));
                 }
                 if b > l {
@@ -344,7 +607,13 @@ fn check_order(ops: &TypeOps, v: &dyn Val, doc: &str, b: u64, total_events: u64,
                     return Err(format!("limit {} succeeded but the larger limit {} fails with TooManyEvents (document {:?})", f, l, doc));
                 }
             }
-            Err(e) => return Err(format!("with limit {} the interleaved document fails with {}: {} (neither the value nor TooManyEvents; document {:?})", l, e.kind, e.msg, doc)),
+            Err(e) => {
+                if j.known_f12 && nil_not_honoured(ops, doc, Some(l as usize), &res, j.decl_on_container) {
+                    f12 += 1;
+                    continue;
+                }
+                return Err(format!("with limit {} the interleaved document fails with {}: {} (neither the value nor TooManyEvents; document {:?})", l, e.kind, e.msg, doc));
+            }
         }
         if first_ok.is_some() {
             loc.mono += 1;
@@ -353,60 +622,158 @@ fn check_order(ops: &TypeOps, v: &dyn Val, doc: &str, b: u64, total_events: u64,
     if let (Some(f), true) = (first_ok, all_limits) {
         *loc.slack.entry((f - b.max(1)).min(9)).or_insert(0) += 1;
     }
-    Ok(())
+    Ok(f12)
 }
 
-fn run_value(ctx: &mut Ctx, loc: &mut Local, ops: &TypeOps, gen: fn(&mut Rng, usize) -> Box<dyn Val>, vseed: u64, max: usize, exhaustive: bool, deep_seed: Option<u64>, r: &mut Rng) -> bool {
+const NS_DECLS: &str = " xmlns:p=\"urn:p\" xmlns:q=\"urn:q\" xmlns:xsi=\"http://www.w3.org/2001/XMLSchema-instance\"";
+
+struct Prepared {
+    v: Box<dyn Val>,
+    /// everything in front of the children (for a wrapped shape: the wrapper's and the container's start tags)
+    open: String,
+    children: Vec<(Child, bool)>,
+    close: String,
+    /// the contiguous document (decorated if asked for)
+    contiguous: String,
+    wrapped: bool,
+}
+
+/// value -> contiguous serialization -> (two-level shuffle) -> (decoration) -> children
+fn prepare(ops: &TypeOps, gen: fn(&mut Rng, usize) -> Box<dyn Val>, vseed: u64, max: usize, deep_seed: Option<u64>, decor: Option<(u8, u64)>) -> Option<Prepared> {
     let v = gen(&mut Rng::new(vseed), max);
-    let xml = match v.ser(&SerCfg::plain()) {
-        Ok(x) => x,
-        Err(_) => return true,
-    };
-    // two-level interleaving: first interleave the children of nested struct items
-    let xml = match deep_seed {
-        Some(s) => {
-            loc.deep += 1;
-            shuffle_inner(&xml, &mut Rng::new(s), 0)
+    let xml = v.ser(&SerCfg::plain()).ok()?;
+    let wrapped = ops.name.starts_with("Wrap");
+    // a wrapped shape is `<s_ovlwrap><w_inner>children</w_inner></s_ovlwrap>`: the container is w_inner
+    let (outer_open, xml, outer_close) = if wrapped {
+        let toks = tokenize(xml.as_bytes(), CFG_NEUTRAL);
+        let first = toks.first()?;
+        if !matches!(first.obs, Obs::Ev(Kind::Start, _, _)) {
+            return None;
         }
+        let last = toks.iter().rev().find(|t| matches!(t.obs, Obs::Ev(Kind::End, _, _)))?;
+        (xml[..first.after as usize].to_string(), xml[first.after as usize..last.before as usize].to_string(), xml[last.before as usize..].to_string())
+    } else {
+        (String::new(), xml, String::new())
+    };
+    let shape = ops.name.trim_start_matches("Wrap");
+    let xml = match deep_seed {
+        Some(s) => shuffle_inner(&xml, &mut Rng::new(s), 0),
         None => xml,
     };
-    let (open, children, close) = match split_children(&xml, &*groups_for(ops.name)) {
-        Some(x) => x,
+    let (outer_open, xml) = match decor {
+        Some((flags, dseed)) => {
+            let d = decorate(&xml, shape, flags, !wrapped, &mut Rng::new(dseed))?;
+            let oo = if wrapped { format!("{}{}>", &outer_open[..outer_open.len() - 1], NS_DECLS) } else { outer_open };
+            (oo, d)
+        }
+        None => (outer_open, xml),
+    };
+    let (open, children, close) = split_children(&xml, &*groups_for(shape))?;
+    Some(Prepared { v, open: format!("{}{}", outer_open, open), children, close: format!("{}{}", close, outer_close), contiguous: format!("{}{}{}", outer_open, xml, outer_close), wrapped })
+}
+
+fn run_value(ctx: &mut Ctx, loc: &mut Local, ops: &TypeOps, gen: fn(&mut Rng, usize) -> Box<dyn Val>, vseed: u64, max: usize, exhaustive: bool, deep_seed: Option<u64>, decor: Option<(u8, u64)>, r: &mut Rng) -> bool {
+    let p = match prepare(ops, gen, vseed, max, deep_seed, decor) {
+        Some(p) => p,
         None => return true,
     };
+    let v = &p.v;
+    if deep_seed.is_some() {
+        loc.deep += 1;
+    }
+    // hand-written presentation: the decorated contiguous document is in the domain only if it
+    // still gives the original value
+    if let Some((flags, dseed)) = decor {
+        let d = &p.contiguous;
+        match guarded(|| (ops.de_str)(d, None)) {
+            Ok(Ok(x)) if x.eq_val(v.as_ref()) => {}
+            Ok(Ok(x)) => {
+                loc.decor_differs += 1;
+                if std::env::var("VERIF_DEBUG_C20").is_ok() && loc.decor_differs < 4 {
+                    eprintln!("DECOR-DIFF {} flags={} got {} want {} doc={}", ops.name, flags, x.dbg(), v.dbg(), d);
+                }
+                return true;
+            }
+            Ok(Err(e)) => {
+                loc.decor_fails += 1;
+                if std::env::var("VERIF_DEBUG_C20").is_ok() && loc.decor_fails < 6 {
+                    eprintln!("DECOR-FAIL {} flags={} {}: {} doc={}", ops.name, flags, e.kind, e.msg, d);
+                }
+                return true;
+            }
+            Err(pn) => {
+                ctx.violation(json!({"shape": ops.name, "value_seed": vseed, "max": max, "deep_seed": deep_seed, "decor": [flags, dseed], "order": [], "document": d}), pn);
+                return !ctx.full();
+            }
+        }
+        loc.decor_docs += 1;
+        for (bit, name) in [(D_NS, "ns_prefixes"), (D_NIL, "xsi_nil"), (D_UNKNOWN, "unknown_children"), (D_COMMENT, "comments_pis"), (D_CDATA, "cdata"), (D_ATTR, "unknown_attributes")] {
+            if flags & bit != 0 {
+                *loc.decor_kinds.entry(name).or_insert(0) += 1;
+            }
+        }
+        if d.contains("xsi:nil=\"true\"") {
+            loc.decor_nil_docs += 1;
+            if p.wrapped {
+                loc.decor_nil_docs_ancestor += 1;
+            }
+        }
+        if d.contains("<p:") || d.contains("<q:") {
+            loc.decor_prefixed_docs += 1;
+        }
+    }
+    let (open, children, close) = (&p.open, &p.children, &p.close);
     if children.is_empty() {
         return true;
     }
     let total_events: u64 = children.iter().map(|c| c.0.events).sum();
     let (orders, complete) = if exhaustive {
-        interleavings(&children, 2000, r)
+        interleavings(children, 2000, r)
     } else {
         // random interleavings only
-        let (o, _) = interleavings(&children, 0, r);
+        let (o, _) = interleavings(children, 0, r);
         (o.into_iter().take(24).collect(), false)
     };
     *loc.shapes.entry(ops.name).or_insert(0) += 1;
+    let judge = Judge { ops, v: v.as_ref(), decl_on_container: decor.is_some() && !p.wrapped, known_f12: ctx.is_known("F12") };
     for (oi, order) in orders.iter().enumerate() {
-        let doc = build(&open, &children, order, &close);
-        let b = lower_bound(order, &children);
+        let doc = build(open, children, order, close);
+        let b = lower_bound(order, children);
         loc.max_b = loc.max_b.max(b);
         loc.interleavings += 1;
-        let case = json!({"shape": ops.name, "value_seed": vseed, "max": max, "deep_seed": deep_seed, "order": order, "document": doc});
+        let case = json!({"shape": ops.name, "value_seed": vseed, "max": max, "deep_seed": deep_seed, "decor": decor.map(|(f, d)| vec![f as u64, d]), "order": order, "document": doc});
+        if decor.is_some() {
+            loc.decor_interleavings += 1;
+        }
         ctx.journal(|| case.clone());
         ctx.eval(H::new().str(&doc).finish(), b > 0);
-        let res = guarded(|| check_order(ops, v.as_ref(), &doc, b, total_events, exhaustive && complete, loc, r));
+        let res = guarded(|| check_order(&judge, &doc, b, total_events, exhaustive && complete, loc, r));
         let mut res = match res {
-            Ok(r) => r,
-            Err(p) => Err(p),
+            Ok(Ok(n)) => {
+                for _ in 0..n {
+                    ctx.known_hit("F12");
+                }
+                if n > 0 {
+                    Err(String::new())
+                } else {
+                    Ok(())
+                }
+            }
+            Ok(Err(d)) => Err(d),
+            Err(pn) => Err(pn),
         };
+        let f12 = matches!(&res, Err(d) if d.is_empty());
+        if f12 {
+            res = Ok(());
+        }
         // reader entry point (no limit) for a sample
-        if res.is_ok() && oi % 7 == 0 {
+        if res.is_ok() && !f12 && oi % 7 == 0 {
             loc.reader += 1;
             res = match guarded(|| (ops.de_reader)(ChunkedRead::new(doc.as_bytes(), cuts_for_piece(doc.len(), 1, 0)))) {
                 Ok(Ok(x)) if x.eq_val(v.as_ref()) => Ok(()),
                 Ok(Ok(x)) => Err(format!("from_reader gives {} instead of {} (document {:?})", x.dbg(), v.dbg(), doc)),
                 Ok(Err(e)) => Err(format!("from_reader fails: {}: {} (document {:?})", e.kind, e.msg, doc)),
-                Err(p) => Err(p),
+                Err(pn) => Err(pn),
             };
         }
         if let Err(d) = res {
@@ -430,7 +797,7 @@ fn run(ctx: &mut Ctx) {
     'outer: for _ in 0..n {
         for (ops, gen) in &shapes {
             let vseed = r.next();
-            if !run_value(ctx, &mut loc, ops, *gen, vseed, 3, true, None, &mut r) {
+            if !run_value(ctx, &mut loc, ops, *gen, vseed, 3, true, None, None, &mut r) {
                 break 'outer;
             }
         }
@@ -441,7 +808,7 @@ fn run(ctx: &mut Ctx) {
         for (ops, gen) in &shapes {
             let vseed = r.next();
             let max = 4 + r.below(7);
-            if !run_value(ctx, &mut loc, ops, *gen, vseed, max, false, None, &mut r) {
+            if !run_value(ctx, &mut loc, ops, *gen, vseed, max, false, None, None, &mut r) {
                 break 'outer2;
             }
         }
@@ -456,10 +823,36 @@ fn run(ctx: &mut Ctx) {
             let vseed = r.next();
             let ds = r.next();
             let max = 2 + r.below(4);
-            if !run_value(ctx, &mut loc, ops, *gen, vseed, max, false, Some(ds), &mut r) {
+            if !run_value(ctx, &mut loc, ops, *gen, vseed, max, false, Some(ds), None, &mut r) {
                 break 'outer3;
             }
         }
+    }
+    // hand-written presentations of the contiguous document, then interleaved
+    let n = ctx.scaled(t.pick(1_200, 120_000)) / ctx.nshards as u64 + 1;
+    'outer4: for i in 0..n {
+        for (ops, gen) in &shapes {
+            let vseed = r.next();
+            let dseed = r.next();
+            // single decorations and random combinations
+            let flags = if i % 3 == 0 { 1u8 << r.below(6) } else { (r.next() & 63) as u8 };
+            let small = i % 2 == 0;
+            let max = if small { 2 } else { 3 + r.below(4) };
+            let deep = if matches!(ops.name, "OvlSame" | "OvlDeep" | "OvlNested" | "OvlRec") && r.bool() { Some(r.next()) } else { None };
+            if !run_value(ctx, &mut loc, ops, *gen, vseed, max, small, deep, Some((flags, dseed)), &mut r) {
+                break 'outer4;
+            }
+        }
+    }
+    ctx.add("decorated.documents_judged", loc.decor_docs);
+    ctx.add("decorated.interleavings", loc.decor_interleavings);
+    ctx.add("decorated.contiguous_form_gives_another_value_not_judged", loc.decor_differs);
+    ctx.add("decorated.contiguous_form_fails_not_judged", loc.decor_fails);
+    ctx.add("decorated.documents_with_xsi_nil", loc.decor_nil_docs);
+    ctx.add("decorated.documents_with_xsi_nil_declared_on_an_ancestor", loc.decor_nil_docs_ancestor);
+    ctx.add("decorated.documents_with_prefixed_names", loc.decor_prefixed_docs);
+    for (k, v) in &loc.decor_kinds {
+        ctx.add(&format!("decorated.kind.{}", k), *v);
     }
     ctx.add("interleavings", loc.interleavings);
     ctx.add("two_level_values", loc.deep);
@@ -477,23 +870,27 @@ fn run(ctx: &mut Ctx) {
     ctx.add("reader_entry", loc.reader);
 }
 
-fn replay(case: &Value, _ctx: &mut Ctx) -> Option<String> {
+fn replay(case: &Value, ctx: &mut Ctx) -> Option<String> {
     let shapes = ovl_family();
     let (ops, gen) = shapes.iter().find(|(o, _)| o.name == case["shape"].as_str().unwrap_or(""))?;
-    let v = gen(&mut Rng::new(case["value_seed"].as_u64().unwrap_or(0)), case["max"].as_u64().unwrap_or(3) as usize);
-    let mut xml = v.ser(&SerCfg::plain()).ok()?;
-    if let Some(ds) = case["deep_seed"].as_u64() {
-        xml = shuffle_inner(&xml, &mut Rng::new(ds), 0);
-    }
-    let (open, children, close) = split_children(&xml, &*groups_for(ops.name))?;
+    let decor = case["decor"].as_array().and_then(|d| Some((d.first()?.as_u64()? as u8, d.get(1)?.as_u64()?)));
+    let p = prepare(ops, *gen, case["value_seed"].as_u64().unwrap_or(0), case["max"].as_u64().unwrap_or(3) as usize, case["deep_seed"].as_u64(), decor)?;
     let order: Vec<usize> = case["order"].as_array()?.iter().map(|x| x.as_u64().unwrap_or(0) as usize).collect();
-    if order.iter().any(|i| *i >= children.len()) {
+    if order.is_empty() && decor.is_some() {
+        return guarded(|| (ops.de_str)(&p.contiguous, None)).err();
+    }
+    if order.iter().any(|i| *i >= p.children.len()) {
         return Some("replay case does not match the regenerated value".into());
     }
-    let doc = build(&open, &children, &order, &close);
-    let b = lower_bound(&order, &children);
-    let total: u64 = children.iter().map(|c| c.0.events).sum();
+    let doc = build(&p.open, &p.children, &order, &p.close);
+    let b = lower_bound(&order, &p.children);
+    let total: u64 = p.children.iter().map(|c| c.0.events).sum();
     let mut loc = Local::default();
     let mut r = Rng::new(1);
-    check_order(ops, v.as_ref(), &doc, b, total, true, &mut loc, &mut r).err()
+    let judge = Judge { ops, v: p.v.as_ref(), decl_on_container: decor.is_some() && !p.wrapped, known_f12: ctx.is_known("F12") };
+    match guarded(|| check_order(&judge, &doc, b, total, true, &mut loc, &mut r)) {
+        Ok(Ok(_)) => None,
+        Ok(Err(d)) => Some(d),
+        Err(pn) => Some(pn),
+    }
 }
